@@ -14,6 +14,13 @@ import (
 
 func init() {
 	register(&PropertyCheck{ID: "C09", Level: "other", Run: checkC09, Canaries: []Canary{
+		{Name: "boolean-property-kept-in-a-byte-field", Rule: "R9.4", Where: "Publish#boolean-properties", Edits: []Edit{
+			{"publish.go", "\tpayloadFormat wbool", "\tpayloadFormat wuint8"},
+			{"publish.go", "func (p *Publish) SetPayloadFormat(v bool) { p.payloadFormat = wbool(v) }\nfunc (p *Publish) PayloadFormat() bool     { return bool(p.payloadFormat) }", "func (p *Publish) SetPayloadFormat(v bool) {\n\tp.payloadFormat = 0\n\tif v {\n\t\tp.payloadFormat = 1\n\t}\n}\nfunc (p *Publish) PayloadFormat() bool { return p.payloadFormat == 1 }"}}},
+		{Name: "size-guard-one-byte-too-late", Rule: "R9.3", Where: "(*vbint).ReadFrom#size-guard", Edits: []Edit{{"wiretypes.go", "\t\tif multiplier > 128*128*128 {\n\t\t\treturn i, unmarshalErr(v, \"\", \"size exceeded\")", "\t\tif multiplier > 128*128*128*128 {\n\t\t\treturn i, unmarshalErr(v, \"\", \"size exceeded\")"}}},
+		{Name: "second-reader-for-the-payload-first-error-dropped", Rule: "R9.2", Where: "(*Subscribe).UnmarshalBinary", Edits: []Edit{
+			{"subscribe.go", "\tb := &buffer{data: data}\n\tb.get(&p.packetID)\n\tb.getAny(p.propertyMap(true), p.appendUserProperty)\n", "\th := &buffer{data: data}\n\th.get(&p.packetID)\n\th.getAny(p.propertyMap(true), p.appendUserProperty)\n\tb := &buffer{data: data[h.i:]}\n"},
+			{"subscribe.go", "\t\tif b.i == len(data) {\n\t\t\tbreak\n\t\t}", "\t\tif b.atEnd() {\n\t\t\tbreak\n\t\t}"}}},
 		{Name: "nil-returned-under-error-test", Silent: true, Edits: []Edit{{"unsubscribe.go", "\t\tif b.err != nil {\n\t\t\tbreak\n\t\t}\n\t\tp.filters = append(p.filters, f)\n\t\tif b.i == len(data) {\n\t\t\tbreak\n\t\t}\n\t}\n\treturn b.err\n}", "\t\tif b.err != nil {\n\t\t\treturn b.err\n\t\t}\n\t\tp.filters = append(p.filters, f)\n\t\tif b.atEnd() {\n\t\t\treturn nil\n\t\t}\n\t}\n}"}}},
 		{Name: "identifier-high-bit-masked", Rule: "R9.5", Where: "(*Ident).UnmarshalBinary", Edits: []Edit{{"wiretypes.go", "\t*v = Ident(data[0])", "\t*v = Ident(data[0] & 0x7f)"}}},
 		{Name: "vbi-accepts-unterminated", Rule: "R9.3", Where: "(*vbint).UnmarshalBinary", Edits: []Edit{{"wiretypes.go", "\t\tif encodedByte&128 == 0 {\n\t\t\t*v = vbint(value)\n\t\t\treturn nil\n\t\t}\n\t\tmultiplier = multiplier * 128\n\t}\n\treturn unmarshalErr(v, \"\", \"missing data\")", "\t\tif encodedByte&128 == 0 {\n\t\t\tbreak\n\t\t}\n\t\tmultiplier = multiplier * 128\n\t}\n\t*v = vbint(value)\n\treturn nil"}}},
@@ -77,7 +84,7 @@ func checkC09(p *Prog, c *Check) {
 	c.Rule("R9.1", "every wire decoder returns nil only when at least width() >= its proven minimum bytes were present (no success on short input, no zero padding), and every other return is a non-nil error")
 	c.Rule("R9.2", "every packet decoder returns the reader's sticky error as it is after the last read, and ReadPacket's tree turns a non-nil one into (nil, error)")
 	c.Rule("R9.3", "both variable-byte-integer decoders keep the size guard on every cycle (a fifth continuation byte leaves with an error) and only the exit taken on a byte without continuation bit may reach success; running out of input is an error")
-	c.Rule("R9.4", "the boolean decoder succeeds only on the edges `byte == 0` and `byte == 1`")
+	c.Rule("R9.4", "the boolean decoder succeeds only on the edges `byte == 0` and `byte == 1`, and every property the specification defines as a boolean byte (0x01, 0x17, 0x19, 0x25, 0x28, 0x29, 0x2A) is decoded by it in every packet type that allows the property")
 	c.Rule("R9.5", "in the property loop every iteration, after reading the identifier, reads a value through the guarded primitive or stores a non-nil error; every identifier accepted by any packet (property-map keys and the loop's own cases) is one of the 27 defined by MQTT v5.0")
 	c.Explanation = "The four rejection classes are decided as path rules on the SSA form: truncation inside a field is caught because every field is read through the guarded primitive, which fails at end of data and refuses to advance beyond it (R9.0), and each wire decoder refuses short input (R9.1); the rejection cannot be lost on the way out (R9.2); over-long and unterminated variable byte integers (R9.3), non-0/1 booleans (R9.4) and undefined identifiers (R9.5) have no path to success. Decided is the mechanism; the universally quantified statement over every cut of every frame is not enumerated."
 	c.Trusted = []string{"go/types + go/ssa (x/tools v0.29.0) faithful IR", "the list of 27 property identifiers transcribed from the MQTT v5.0 specification"}
@@ -128,6 +135,52 @@ func checkC09(p *Prog, c *Check) {
 		}
 	}
 	c.Floor("boolean decoders", nb, 1, "MQTT has boolean (byte 0/1) properties")
+	// … and every boolean property of the specification is decoded by such a decoder: ReadPacket is evaluated on
+	// a frame carrying only that property, for each packet type that allows it
+	{
+		base := map[string]sv{}
+		specPairMem(base)
+		codeOf := map[string]int64{}
+		for k, n := range specPacketTypes {
+			codeOf[n] = k
+		}
+		nev := 0
+		for _, tn := range packetTypeNames() {
+			bad, unk := "", ""
+			n := 0
+			frames := p.specFrames(tn)
+			for fi := range frames {
+				f := &frames[fi]
+				var id int64
+				if _, err := fmt.Sscanf(f.name, "only property 0x%x", &id); err != nil || !specBoolProps[id] {
+					continue
+				}
+				header := sv{k: 'i', i: codeOf[tn] | specReservedBits[tn]}
+				r := p.decoderReplay(tn, header, f.toks, f.total(), base)
+				n++
+				nev++
+				switch {
+				case r.Why != "":
+					unk = fmt.Sprintf("property %#02x: cannot evaluate ReadPacket: %s", id, r.Why)
+				case r.BoolAsByte != "":
+					bad = fmt.Sprintf("boolean property %#02x (%s) is decoded by %s, which accepts every byte value: 2..255 are not rejected", id, specPropByID(id).Name, r.BoolAsByte)
+				}
+			}
+			if n == 0 {
+				continue
+			}
+			cons := tn + "#boolean-properties"
+			switch {
+			case unk != "":
+				c.Unk("R9.4", cons, "-", unk)
+			case bad != "":
+				c.Bad("R9.4", cons, "-", bad)
+			default:
+				c.OK("R9.4", cons, "-", fmt.Sprintf("%d boolean propert(ies) of the specification reach the two-way boolean decoder", n))
+			}
+		}
+		c.Measured["boolean_property_frames"] = nev
+	}
 
 	// R9.5
 	checkPropertyLoop(p, c, cur, scope)
@@ -256,6 +309,50 @@ func checkStickyResult(p *Prog, c *Check, cur *Cursor) {
 				okAll = false
 				c.Bad("R9.2", cons, posOf(p, ret), "the packet decoder does not return the reader's sticky error (returns "+describeVal(r)+"): a rejection inside a field would be lost")
 			}
+			// several readers in one decoder: a return hands back the error of one of them at most — every other
+			// reader's error must have been found nil on the way (else what it rejected is accepted)
+			if good && len(curs) > 1 {
+				for _, al := range curs {
+					if stickyReturnOK(p, cur, pr, []ssa.Value{al}, b, ret, 0) {
+						continue
+					}
+					checked := false
+					for _, ib := range fn.Blocks {
+						iff, ok := terminator(ib).(*ssa.If)
+						if !ok {
+							continue
+						}
+						bo, ok := iff.Cond.(*ssa.BinOp)
+						if !ok || (bo.Op != token.NEQ && bo.Op != token.EQL) {
+							continue
+						}
+						var x ssa.Value
+						if isNilConst(bo.Y) {
+							x = bo.X
+						} else if isNilConst(bo.X) {
+							x = bo.Y
+						}
+						ld, ok := x.(*ssa.UnOp)
+						if !ok || ld.Op != token.MUL {
+							continue
+						}
+						if base, ok := cur.isField(ld.X, cur.E); !ok || base != ssa.Value(al) {
+							continue
+						}
+						nilSide := 1
+						if bo.Op == token.EQL {
+							nilSide = 0
+						}
+						if edgeDominates(ib, ib.Succs[nilSide], b) {
+							checked = true
+						}
+					}
+					if !checked {
+						okAll = false
+						c.Bad("R9.2", cons, posOf(p, ret), "the decoder uses several sequential readers; the error of the one created at "+posOf(p, al)+" is neither returned here nor found nil before: what that reader rejected is accepted")
+					}
+				}
+			}
 		}
 		if okAll {
 			how := "every return yields the sequential reader's error as it is after the last read"
@@ -383,7 +480,9 @@ func checkVBIDecoder(p *Prog, c *Check, fn *ssa.Function) bool {
 	_ = why
 	errIdx := errorResultIndex(fn.Signature)
 	// guard on every cycle
-	if g.Guard == nil {
+	if g.Guard != nil && (g.B != 128*128*128 || g.R != 128) {
+		c.Bad("R9.3", cons+"#size-guard", posOf(p, g.Guard), fmt.Sprintf("the size guard leaves once the multiplier exceeds %d (radix %d); a fifth byte is reached at 128³ = 2097152 with radix 128: longer integers are accepted", g.B, g.R))
+	} else if g.Guard == nil {
 		c.Bad("R9.3", cons+"#size-guard", posOf(p, g.AccNew), "no `multiplier > bound` exit in the accumulation loop: a fifth (sixth, …) continuation byte is accepted")
 	} else if !acyclicWithout(lp, map[*ssa.BasicBlock]bool{g.Guard.Block(): true}) {
 		c.Bad("R9.3", cons+"#size-guard", posOf(p, g.Guard), "the size guard is not on every cycle of the accumulation loop")
@@ -444,6 +543,121 @@ func checkVBIDecoder(p *Prog, c *Check, fn *ssa.Function) bool {
 	_ = isAcc
 	if okAll {
 		c.OK("R9.3", cons+"#exits", p.Pos(fn.Pos()), fmt.Sprintf("success is reachable only through the exit taken on a byte without continuation bit (mask %d)", contMask))
+	}
+	// one decoding path only: the loop is the function's only way to a result.  Every store through the receiver
+	// stores the loop's accumulator, every successful return lies behind the loop, and every rejecting return is
+	// decided by the end of the input, a failed read or the size guard — never by the value of a byte (a fast
+	// path in front of the loop, or an extra strictness test in one of the two decoders, makes them disagree)
+	{
+		header := lp.Header
+		dependsOnByte := func(v ssa.Value) bool {
+			return dependsOn(v, func(x ssa.Value) bool {
+				if x == g.ByteVal || x == ssa.Value(g.Acc) || x == ssa.Value(g.AccNew) {
+					return true
+				}
+				if ld, ok := x.(*ssa.UnOp); ok && ld.Op == token.MUL {
+					if _, isIA := ld.X.(*ssa.IndexAddr); isIA {
+						return true // an element of the input / read buffer
+					}
+				}
+				if _, isIdx := x.(*ssa.Index); isIdx {
+					return true
+				}
+				return false
+			}, map[ssa.Value]bool{})
+		}
+		depth := func(b *ssa.BasicBlock) int {
+			n := 0
+			for d := b.Idom(); d != nil; d = d.Idom() {
+				n++
+			}
+			return n
+		}
+		bad := ""
+		for _, b := range fn.Blocks {
+			for _, ins := range b.Instrs {
+				if s, ok := ins.(*ssa.Store); ok && s.Addr == ssa.Value(fn.Params[0]) {
+					v := p.stripNonNarrowing(s.Val)
+					okV := false
+					vs := []ssa.Value{v}
+					if ph, isPhi := v.(*ssa.Phi); isPhi && ph != g.Acc {
+						vs = ph.Edges
+					}
+					okV = true
+					for _, e := range vs {
+						e = p.stripNonNarrowing(e)
+						if e != ssa.Value(g.Acc) && e != ssa.Value(g.AccNew) {
+							okV = false
+						}
+					}
+					if !okV && bad == "" {
+						bad = "a value that is not the loop's accumulator is stored as the result at " + posOf(p, s) + " (" + describeVal(s.Val) + ")"
+					}
+				}
+			}
+			// the receiver handed to another function: that function must not write through it
+			for _, ins := range b.Instrs {
+				call, ok := ins.(*ssa.Call)
+				if !ok {
+					continue
+				}
+				for k, a := range call.Call.Args {
+					base := a
+					if mi, ok := a.(*ssa.MakeInterface); ok {
+						base = mi.X
+					}
+					if base != ssa.Value(fn.Params[0]) {
+						continue
+					}
+					sc := call.Call.StaticCallee()
+					if sc == nil || sc.Blocks == nil {
+						continue
+					}
+					if sum := p.allEffects().Summary(sc); sum != nil {
+						for _, w := range sum.Writes {
+							if (w.Target.Kind == PParam || w.Target.Kind == PParamR) && w.Target.Idx == k && bad == "" {
+								bad = "the result cell is handed to " + qname(sc) + " at " + posOf(p, call) + ", which writes through it (" + w.Kind.String() + " at " + posOf(p, w.Ins) + "): a second writer of the decoded value"
+							}
+						}
+					}
+				}
+			}
+			ret, ok := terminator(b).(*ssa.Return)
+			if !ok || errIdx < 0 || errIdx >= len(ret.Results) {
+				continue
+			}
+			if isNilConst(ret.Results[errIdx]) {
+				if !header.Dominates(b) && bad == "" {
+					bad = "a successful return at " + posOf(p, ret) + " does not lie behind the decoding loop: a second decoding path"
+				}
+				continue
+			}
+			// the closest branch that decides this rejecting return
+			var ctl *ssa.If
+			best := -1
+			for _, ib := range fn.Blocks {
+				iff, ok := terminator(ib).(*ssa.If)
+				if !ok || !ib.Dominates(b) {
+					continue
+				}
+				for k := 0; k < 2; k++ {
+					if edgeDominates(ib, ib.Succs[k], b) && depth(ib) > best {
+						ctl, best = iff, depth(ib)
+					}
+				}
+			}
+			if ctl == nil || ctl == g.Guard {
+				continue
+			}
+			if dependsOnByte(ctl.Cond) && bad == "" {
+				bad = "the rejection at " + posOf(p, ret) + " is decided by the value of a byte (" + describeVal(ctl.Cond) + " at " + posOf(p, ctl) + "), not by the end of the input or the size guard: a byte sequence the other decoder accepts is rejected here"
+			}
+		}
+		if bad != "" {
+			c.Bad("R9.3", cons+"#single-path", p.Pos(fn.Pos()), bad)
+		} else {
+			c.OK("R9.3", cons+"#single-path", p.Pos(fn.Pos()), "every result is the loop's accumulator, success lies behind the loop, rejections are decided by the end of the input, a failed read or the size guard only")
+		}
 	}
 	return true
 }
